@@ -57,7 +57,7 @@ def Acc.tag (a : Acc) (t : String) : Acc := if a.tags.contains t then a else { a
 
 def lookupD {β : Type} (k : String) (l : List (String × β)) (d : β) : β := (alGet k l).getD d
 
-def inproc : Judge := liftJudge fun input obs => do
+def inprocOne : Judge := liftJudge fun input obs => do
   match obsPanic obs with
   | some m => pure { agree := false, spec := false, sig := "panic", note := m }
   | none =>
@@ -210,6 +210,19 @@ def inproc : Judge := liftJudge fun input obs => do
       ("out", Json.mkObj (expOut.map fun (c, ps) => (c, Json.arr (ps.map fun p => Json.str s!"{p.id}:{p.qos}:{p.payload}").toArray)))])
   pure { agree := acc.agree, spec := acc.spec, expected := Json.mkObj [("steps", Json.arr expected)],
          tags := acc.tags ++ [s!"clients={real.length}"], nontrivial := nontriv, sig := acc.sig, note := acc.note }
+
+/-- the harness may run a scenario several times on fresh state (`"runs"`): the first run that violates
+the spec (else the first that disagrees with the model) decides. -/
+def inproc : Judge := fun input obs =>
+  match obs.getObjVal? "runs" with
+  | .ok (.arr rs) =>
+    let vs := rs.toList.map (inprocOne input)
+    match vs.find? (fun v => !v.spec), vs.find? (fun v => !v.agree), vs.getLast? with
+    | some v, _, _ => v
+    | none, some v, _ => v
+    | none, none, some v => { v with tags := v.tags ++ [s!"runs={rs.size}"] }
+    | none, none, none => badInput "no runs"
+  | _ => inprocOne input obs
 
 /-! ### wire judge -/
 
